@@ -1,3 +1,116 @@
 import B6.Driver.Common
-/-! Driver for C34 — stub (the check for this property is not built yet). -/
-def main : IO Unit := B6.Driver.run { σ := Unit, init := (), step := fun s _ _ => (s, .bad) }
+import B6.Model.DouglasPeucker
+import Std.Data.HashMap
+/-!
+Driver for C34.  One op per line, no state between lines.
+
+  `dp <eps> [<vid> …] [<a>:<z>:<d>,<d>,… …]`   answer `iter=<[vid …]|panic|hang|crash> ref=<…>`
+
+* `vid`  value class of each input point (equal points share an id); results are lists of vids.
+* row `a:z` = `distance(points[a], points[z], points[i])` for `i = a+1 … z-1` as order-preserving
+  integers (hex of the IEEE bits of the non-negative float; NaN → 0); `eps` likewise (negative → `-1`).
+
+The model (`B6.Model.DouglasPeucker`, points = indices `0 … n-1`, `D = Int`, `gt = >`) is run on exactly
+these numbers.  Property predicate, evaluated on the implementation's own answers for `n ≥ 2`:
+`terminates` (iter is a list), `eq_ref` (iter = ref), `keeps_ends`, `subsequence`.
+A model run that needs a row the harness did not ship is reported as `diff missing-row`.
+-/
+open B6.Driver B6.Model.DouglasPeucker
+namespace B6.Driver.C34
+
+def hexNat (s : String) : Option Nat :=
+  if s.isEmpty then none else
+  s.toList.foldl (fun acc c => do let a ← acc; let d ← hexDigit? c; pure (a * 16 + d)) (some 0)
+
+def parseD (s : String) : Option Int :=
+  if s == "-1" then some (-1) else (hexNat s).map Int.ofNat
+
+abbrev Table := Std.HashMap (Nat × Nat) (Array Int)
+
+def parseRow (s : String) : Option ((Nat × Nat) × Array Int) :=
+  match s.splitOn ":" with
+  | [a, z, ds] => do
+    let a ← a.toNat?
+    let z ← z.toNat?
+    let ds ← (ds.splitOn ",").mapM parseD
+    pure ((a, z), ds.toArray)
+  | _ => none
+
+def parseRows (ws : List String) : Option Table :=
+  ws.foldl (fun acc w => do let t ← acc; let (k, v) ← parseRow w; pure (t.insert k v)) (some {})
+
+/-- the metric the Go code saw; a missing entry reads as `-2` (never selected) and is reported by `missing` -/
+def metric (t : Table) : Metric Nat Int :=
+  { dist := fun a z p => match t[(a, z)]? with
+      | some r => match r[p - a - 1]? with
+        | some d => d
+        | none => -2
+      | none => -2
+    gt := fun x y => decide (x > y)
+    zero := 0 }
+
+/-- first chord (in the reference's visiting order) whose row is absent or too short -/
+def missing (t : Table) (eps : Int) : Nat → Nat → Nat → Option (Nat × Nat)
+  | 0, _, _ => none
+  | f + 1, b, e =>
+    if e < b + 3 then none else
+    match t[(b, e - 1)]? with
+    | none => some (b, e - 1)
+    | some r =>
+      if r.size ≠ e - b - 2 then some (b, e - 1) else
+      let s := refScan (metric t) ((List.range (e - b)).map (· + b))
+      if 0 < s.2 && s.1 > eps then
+        match missing t eps f b (b + s.2) with
+        | some x => some x
+        | none => missing t eps f (b + s.2) e
+      else none
+
+def renderRes (vids : Array String) : Res (List Nat) → String
+  | .ok l => renderList (l.map fun i => vids[i]?.getD "?")
+  | .panic => "panic"
+  | .nofuel => "hang"
+
+def isSub : List String → List String → Bool
+  | [], _ => true
+  | _ :: _, [] => false
+  | x :: xs, y :: ys => if x == y then isSub xs ys else isSub (x :: xs) ys
+
+def step (_ : Unit) (op impl : String) : Unit × Verdict :=
+  match op.splitOn "[" with
+  | [h, vs, rs] =>
+    match words h, parseBracket ("[" ++ vs), parseBracket ("[" ++ rs) with
+    | ["dp", e], some vids, some rws =>
+      match parseD e, parseRows rws, impl.splitOn " ref=" with
+      | some eps, some tbl, [it, rf] =>
+        if !it.startsWith "iter=" then ((), .bad) else
+        let it := sdrop it 5
+        let n := vids.length
+        let m := metric tbl
+        let pts := List.range n
+        let mi := renderRes vids.toArray (simplify m pts eps)
+        let mr := renderRes vids.toArray (reference m pts eps)
+        let v : Verdict :=
+          if n < 2 then .ok else
+          match parseBracket it with
+          | none => .propfail ("terminates iter=" ++ it)
+          | some out =>
+            if it ≠ rf then .propfail "eq_ref"
+            else if out.head? ≠ vids.head? || out.getLast? ≠ vids.getLast? then .propfail "keeps_ends"
+            else if !isSub out vids then .propfail "subsequence"
+            else .ok
+        match v with
+        | .ok =>
+          match missing tbl eps (n + 1) 0 n with
+          | some (a, z) => ((), .diff s!"missing-row {a}:{z}")
+          | none =>
+            if it == mi && rf == mr then ((), .ok) else ((), .diff s!"iter={mi} ref={mr}")
+        | v => ((), v)
+      | _, _, _ => ((), .bad)
+    | _, _, _ => ((), .bad)
+  | _ => ((), .bad)
+
+def family : Family := { σ := Unit, init := (), step := step }
+
+end B6.Driver.C34
+
+def main : IO Unit := B6.Driver.run B6.Driver.C34.family
